@@ -1,10 +1,14 @@
 """End-to-end runs of canvas shared by C04 and C11: a configuration of gated probe steps (synchronous /
-parallel, exit codes, skip set, ncpu), a completion order chosen by the generator; after every completion the
-model (eager main loop) predicts which steps start next and the harness waits for exactly those."""
+parallel, exit codes incl. deaths by signal, skip set incl. `end`, ncpu), a completion order chosen by the generator;
+after every completion the model (eager main loop) predicts which steps start next and the harness waits for exactly
+those.  Optionally a second invocation is started while steps wait at their gates: a fresh one, a resume of an older
+directory whose name is a prefix of the running one's, a resume of an older FINISHED directory (in the background:
+report and mail), or a resume of the RUNNING directory itself."""
 import hashlib, json, os, re, shutil, subprocess, tempfile, time
 import common, orch_env
 
 NAMES = ['a', 'b', 'c', 'd', 'e', 'f', 'g', 'h']
+SIGNAL_DEATHS = [139, 137, 134]      # the probe dies of SIGSEGV / SIGKILL / SIGABRT (tools/orch/probe); the runner reports 128 + signal
 
 
 def gen_case(rng):
@@ -15,9 +19,13 @@ def gen_case(rng):
         n = rng.randint(4, 7)
     for i in range(n):
         par = rng.random() < (0.9 if heavy else 0.55)
-        ex = 0 if rng.random() < (0.8 if not par else 0.7) else rng.choice([1, 2, 124, 255])
+        # a step that fails by DYING (signal) instead of exiting: the record and the hook must carry 128 + signal and a
+        # synchronous one must stop the invocation like any other failure
+        ex = 0 if rng.random() < (0.8 if not par else 0.7) else rng.choice([1, 2, 124, 255] + SIGNAL_DEATHS)
         steps.append({'name': NAMES[i], 'parallel': par, 'exit': ex})
     skip = [s['name'] for s in steps if rng.random() < 0.12]
+    if rng.random() < 0.08:
+        skip.append('end')              # skip { "end" }: inside "skip sets from configuration and command line"
     ncpu = rng.choice([1, 2] if heavy else [1, 2, 2, 3])
     # completion order preference: a permutation; among the steps running at a time the earliest in this list finishes first
     order = [s['name'] for s in steps]
@@ -25,12 +33,13 @@ def gen_case(rng):
     if heavy and rng.random() < 0.6:
         # newest first: while the queue is full, a job that is not the oldest finishes first
         order = [s['name'] for s in reversed(steps)]
-    second = rng.random() < 0.2
+    second = rng.random() < 0.25 and 'end' not in skip
     return {'steps': steps, 'skip': skip, 'ncpu': ncpu, 'order': order, 'detached': rng.random() < 0.25,
             'second_invocation': second,
-            # how the second invocation is made: a fresh one, or a resume of an older invocation of the same day whose
-            # directory name is a proper prefix of the running one's (DATE.1 while DATE.10 runs)
-            'second_kind': rng.choice(['fresh', 'resume-prefix']) if second else None}
+            # how the second invocation is made: a fresh one; a resume of an older invocation of the same day whose directory
+            # name is a proper prefix of the running one's (DATE.1 while DATE.10 runs); a resume (in the background) of an
+            # older FINISHED invocation; a resume of the directory of the RUNNING invocation
+            'second_kind': rng.choice(['fresh', 'resume-prefix', 'resume-old', 'resume-running']) if second else None}
 
 
 def step_toks(case):
@@ -66,15 +75,35 @@ def model(drv, case, finished):
 SCALE = 1.0
 
 
+def make_old(cv, case):
+    """an older FINISHED invocation of the same configuration, run in the background with every gate open and exit 0: one
+    report, one mail, one end hook.  Returns its directory and what was counted for it."""
+    for s in case['steps']:
+        cv.open_gate(s['name'], 0)
+    p = cv.start([])
+    try:
+        p.communicate(timeout=20 * SCALE)
+    except subprocess.TimeoutExpired:
+        cv.kill_all(p)
+    ok = orch_env.wait_for(lambda: cv.lockfile() is None and cv.mails() >= 1, timeout=20 * SCALE)
+    bds = cv.builddirs()
+    base = {'ok': bool(ok and bds), 'mails': cv.mails(), 'endhooks': sum(1 for h in cv.hooklog() if h.split()[1:2] == ['end'])}
+    cv.close_gates()
+    cv.forget_trace()
+    return (bds[0] if bds else None), base
+
+
 def run_case(ctx, impl, drv, case):
     work = tempfile.mkdtemp(dir=ctx.mkscratch('orch'))
     cv = orch_env.Canvas(ctx, impl, work, [{'name': s['name'], 'parallel': s['parallel']} for s in case['steps']],
                          skip=case['skip'], ncpu=case['ncpu'])
     codes = {s['name']: s['exit'] for s in case['steps']}
-    ob = {'rounds': [], 'lock_samples': []}
+    hold = case.get('hold') or {}                 # name -> seconds a gate stays closed after the step was seen to start
+    ob = {'rounds': [], 'lock_samples': [], 'felloff_lock_samples': [], 'times': {}}
+    kind = case.get('second_kind')
     try:
-        older = None
-        if case.get('second_kind') == 'resume-prefix':
+        older, base = None, {'mails': 0, 'endhooks': 0}
+        if kind == 'resume-prefix':
             # nine finished invocations of today, so that the one under test is named DATE.10
             today = time.strftime('%Y-%m-%d')
             for k in range(1, 10):
@@ -83,9 +112,18 @@ def run_case(ctx, impl, drv, case):
                 open(os.path.join(d, 'step.csv'), 'w').write('step,name,exit,duration,delta,log,user,time,skip\n1,%s,1,1,0,001-x.log,root,1700000000,0\n' % case['steps'][0]['name'])
                 open(os.path.join(d, 'robsd.log'), 'w').write('')
             older = os.path.join(cv.root, '%s.1' % today)
+        elif kind == 'resume-old':
+            older, base = make_old(cv, case)
+            if not base['ok']:
+                ob['setup_failed'] = 'the older invocation of the resume-old lane did not finish'
+                return ob
+        pre = cv.builddirs()
+        mine = lambda: [b for b in cv.builddirs() if b not in pre]
+        t_launch = time.time()
         proc = cv.start([] if case['detached'] else ['-d'])
         finished = []
         second = None
+        settle = 0.04
         while True:
             m = model(drv, case, finished)
             if m is None:
@@ -94,46 +132,52 @@ def run_case(ctx, impl, drv, case):
             want = m['starts']
             ok = orch_env.wait_for(lambda: [t[1] for t in cv.trace() if t[0] == 'start'] == want or
                                    len([t for t in cv.trace() if t[0] == 'start']) > len(want), timeout=8 * SCALE)
+            now = time.time()
             got = [t[1] for t in cv.trace() if t[0] == 'start']
+            for nme in got:
+                ob['times'].setdefault(nme, {}).setdefault('start_seen', now)
+            if got and 'first_start' not in ob:
+                # the time canvas needed from its launch to the first probe's start line: an over-eager loop needs about as
+                # long (one loop iteration, a fork, robsd-exec, sh) to show an extra start
+                ob['first_start'] = now - t_launch
+                settle = min(0.5, max(0.04, 0.5 * ob['first_start']))
             if got == want:
                 # nothing more may start before the next completion: give an over-eager loop the time to show itself
-                time.sleep(0.04 if m['running'] else 0.0)
+                time.sleep(settle * SCALE if m['running'] else 0.0)
                 got = [t[1] for t in cv.trace() if t[0] == 'start']
             ob['rounds'].append({'finished': list(finished), 'model_starts': want, 'impl_starts': got})
             lk = cv.lockfile()
-            bds = [b for b in cv.builddirs() if older is None or b.endswith('.10')]
+            bds = mine()
             if m['running'] and got == want:
                 # sampled only while steps of this invocation are known to be waiting at their gates
-                ob['lock_samples'].append(bool(lk and bds and lk.strip() == bds[0]))
-            if case.get('second_invocation') and second is None and bds and m['running']:
-                # a second invocation while the first runs: must be refused and leave the first alone
-                before = cv.stepfile(bds[0])
-                ndirs = len(cv.builddirs())
-                extra = ['-r', older] if older else []
-                p2 = subprocess.Popen(['bash', os.path.join(impl, 'canvas'), '-d', '-C', cv.conf] + extra, env=cv.env(), cwd=work,
-                                      stdout=subprocess.PIPE, stderr=subprocess.STDOUT, start_new_session=True)
-                try:
-                    out2, _ = p2.communicate(timeout=12)
-                    rc2 = p2.returncode
-                except subprocess.TimeoutExpired:
-                    # it was not refused: it is running steps of its own (waiting at the probes' gates)
-                    cv.kill_all(p2)
-                    out2, rc2 = b'(not refused: still running after 12 s, killed)', 0
-
-                class R2:
-                    returncode, stdout = rc2, out2
-                r2 = R2
-                second = {'rc': r2.returncode, 'builddirs_after': [os.path.basename(b) for b in cv.builddirs()][:1] if len(cv.builddirs()) == ndirs else [os.path.basename(b) for b in cv.builddirs()],
-                          'lock_same': cv.lockfile() == lk, 'first_untouched': cv.stepfile(bds[0]) == before,
-                          'out': r2.stdout.decode('latin1')[-300:]}
+                sample = bool(lk and bds and lk.strip() == bds[0])
+                if m['mode'] == 'felloff':
+                    # the model's loop ran out of schedule lines (end skipped) while these steps still run
+                    ob['felloff_lock_samples'].append(sample)
+                else:
+                    ob['lock_samples'].append(sample)
+            if case.get('second_invocation') and second is None and bds and m['running'] and got == want:
+                second = second_invocation(cv, case, kind, older, bds[0], lk, got, base)
+                if second.get('not_refused'):
+                    # it runs steps of its own on the same probes: nothing after this point can be attributed
+                    ob['second'] = second
+                    ob['aborted_after_second'] = True
+                    cv.kill_all(proc)
+                    return ob
             if got != want:
                 break
             if not m['running']:
                 break
             nxt = next(n for n in case['order'] if n in m['running'])
+            if nxt in hold:
+                left = ob['times'][nxt]['start_seen'] + hold[nxt] - time.time()
+                if left > 0:
+                    time.sleep(left)
+            ob['times'][nxt]['gate_opened'] = time.time()
             cv.open_gate(nxt, codes[nxt])
             # the completion record and the hook of that step
             orch_env.wait_for(lambda: any(h.startswith('hook %s ' % nxt) for h in cv.hooklog()), timeout=8 * SCALE)
+            ob['times'][nxt]['hook_seen'] = time.time()
             finished.append(nxt)
         ob['second'] = second
         try:
@@ -148,13 +192,20 @@ def run_case(ctx, impl, drv, case):
             orch_env.wait_for(lambda: cv.lockfile() is None, timeout=10 * SCALE)
             time.sleep(0.05)
         ob['out'] = out.decode('latin1')[-600:]
-        bds = [b for b in cv.builddirs() if older is None or b.endswith('.10')]
+        bds = mine()
         ob['builddirs'] = [os.path.basename(b) for b in bds]
         bd = bds[0] if bds else None
         ob['trace'] = cv.trace()
         ob['hooks'] = cv.hooklog()
         ob['lock_after'] = cv.lockfile() is not None
-        ob['mails'] = cv.mails()
+        # mail of THIS invocation: not what the older invocation of the resume-old lane got, nor what the second one caused
+        ob['mails'] = cv.mails() - base['mails'] - ((second or {}).get('mails_delta') or 0)
+        if second and second.get('endhook_delta'):
+            # hook calls made by the second invocation's exit trap are judged with the second invocation
+            for _ in range(second['endhook_delta']):
+                if 'hook end 0' in ob['hooks']:
+                    ob['hooks'].remove('hook end 0')
+        ob['launch'] = t_launch
         if bd:
             ob['rows'] = cv.rows(bd)
             ob['report'] = os.path.exists(os.path.join(bd, 'report'))
@@ -173,6 +224,52 @@ def run_case(ctx, impl, drv, case):
     finally:
         cv.reap_strays()
         shutil.rmtree(work, ignore_errors=True)
+
+
+def second_invocation(cv, case, kind, older, running_dir, lk, started, base):
+    """start a second canvas while the first waits at its gates and say what it did.  It must be refused without touching
+    the first - whatever directory it names."""
+    before = cv.stepfile(running_dir)
+    dirs_before = [os.path.basename(b) for b in cv.builddirs()]
+    mails0 = cv.mails()
+    endhooks0 = sum(1 for h in cv.hooklog() if h.split()[1:2] == ['end'])
+    if kind == 'resume-running':
+        args = ['-d', '-r', running_dir]
+    elif kind == 'resume-old':
+        args = ['-r', older]                      # in the background (DETACH=1), as cron would: its exit trap may mail
+    elif kind == 'resume-prefix':
+        args = ['-d', '-r', older]
+    else:
+        args = ['-d']
+    p2 = subprocess.Popen(['bash', os.path.join(cv.impl, 'canvas'), '-C', cv.conf] + args, env=cv.env(), cwd=cv.work,
+                          stdout=subprocess.PIPE, stderr=subprocess.STDOUT, start_new_session=True)
+    # it ends (refused), or it shows that it was not: a start line the first invocation cannot have written
+    extra = []
+    t_end = time.time() + 12 * SCALE
+    while time.time() < t_end and p2.poll() is None:
+        now = [t[1] for t in cv.trace() if t[0] == 'start']
+        if len(now) > len(started):
+            extra = now[len(started):]
+            break
+        time.sleep(0.005)
+    not_refused = p2.poll() is None
+    if not_refused:
+        after_nr = cv.stepfile(running_dir)
+        cv.kill_all(p2)
+        out2 = ('(not refused: %s; killed)' % (('it started %s' % extra) if extra else 'still running after 12 s')).encode()
+        rc2 = 0
+    else:
+        out2, _ = p2.communicate()
+        rc2 = p2.returncode
+        after_nr = None
+    time.sleep(0.05)
+    dirs_after = [os.path.basename(b) for b in cv.builddirs()]
+    return {'kind': kind or 'fresh', 'rc': rc2, 'not_refused': not_refused, 'extra_starts': extra,
+            'dirs_same': dirs_after == dirs_before, 'lock_same': cv.lockfile() == lk,
+            'first_untouched': (after_nr if not_refused else cv.stepfile(running_dir)) == before,
+            'mails_delta': cv.mails() - mails0,
+            'endhook_delta': sum(1 for h in cv.hooklog() if h.split()[1:2] == ['end']) - endhooks0,
+            'out': out2.decode('latin1')[-300:]}
 
 
 # ---- the lock functions alone (C11): util.sh lock_acquire / lock_release vs Orch/RunLock.v ----------------------------
@@ -228,3 +325,90 @@ def run_lock_case(ctx, impl, drv, case):
         return model_ans, impl_ans
     finally:
         shutil.rmtree(work, ignore_errors=True)
+
+
+# ---- lanes with a scenario of their own ---------------------------------------------------------------------------------
+def drive(cv, proc, codes, timeout=20, stop=None):
+    """open the gate of every step as soon as it starts (with its code) until canvas ends; -> (rc, output)"""
+    opened = set()
+    t_end = time.time() + timeout * SCALE
+    while proc.poll() is None and time.time() < t_end:
+        for t in cv.trace():
+            if t[0] == 'start' and t[1] not in opened:
+                cv.open_gate(t[1], codes.get(t[1], 0))
+                opened.add(t[1])
+        if stop is not None and stop():
+            break
+        time.sleep(0.004)
+    try:
+        out, _ = proc.communicate(timeout=5 * SCALE)
+    except subprocess.TimeoutExpired:
+        cv.kill_all(proc)
+        out = b'(hung)'
+    return proc.returncode, out.decode('latin1')
+
+
+def run_skip_on_resume(ctx, impl, case):
+    """C04 lane: a sequential configuration, step `fail` exits 1; then `canvas -d -r <dir> -s <skip>` with <skip> a LATER
+    step.  Property reading: a name of this invocation's skip set (-s) never runs."""
+    work = tempfile.mkdtemp(dir=ctx.mkscratch('orchsr'))
+    names = case['names']
+    cv = orch_env.Canvas(ctx, impl, work, [{'name': n} for n in names], ncpu=1)
+    ob = {}
+    try:
+        rc, out = drive(cv, cv.start(['-d']), {case['fail']: 1})
+        bds = cv.builddirs()
+        if not bds or rc == 0:
+            ob['setup_failed'] = 'the first invocation did not fail (rc %s)' % rc
+            return ob
+        ob['rows_before'] = [(r['step'], r['name'], r['exit'], r['skip']) for r in cv.rows(bds[0])]
+        n0 = len(cv.trace())
+        cv.close_gates()
+        rc2, out2 = drive(cv, cv.start(['-d', '-r', bds[0], '-s', case['skip']]), {})
+        m = re.search(r'at step (\d+)', out2)
+        ob.update({'rc': rc2, 'resumed_at': int(m.group(1)) if m else None,
+                   'started': [t[1] for t in cv.trace()[n0:] if t[0] == 'start'],
+                   'rows': [(r['step'], r['name'], r['exit'], r['skip']) for r in cv.rows(bds[0])], 'tail': out2[-300:]})
+        return ob
+    finally:
+        cv.reap_strays()
+        shutil.rmtree(work, ignore_errors=True)
+
+
+def run_hook_stdin(ctx, impl, case):
+    """C04 lane: sequential steps that all succeed; the configured hook reads its standard input to the end
+    (tools/orch/hook-cat).  Property reading: the hook's input has nothing to do with the schedule - every step runs, end is
+    recorded, exit 0."""
+    work = tempfile.mkdtemp(dir=ctx.mkscratch('orchhk'))
+    cv = orch_env.Canvas(ctx, impl, work, [{'name': n} for n in case['names']], ncpu=1, hook=os.path.join(orch_env.TOOLS, 'hook-cat'))
+    try:
+        rc, out = drive(cv, cv.start(['-d']), {})
+        bds = cv.builddirs()
+        try:
+            eaten = open(os.path.join(cv.orch, 'hook-stdin')).read()
+        except OSError:
+            eaten = ''
+        return {'rc': rc, 'started': [t[1] for t in cv.trace() if t[0] == 'start'],
+                'rows': [(r['step'], r['name'], r['exit'], r['skip']) for r in cv.rows(bds[0])] if bds else [],
+                'report': bool(bds and os.path.exists(os.path.join(bds[0], 'report'))), 'hook_read': eaten, 'tail': out[-300:]}
+    finally:
+        cv.reap_strays()
+        shutil.rmtree(work, ignore_errors=True)
+
+
+def run_robsd_wait(ctx, impl):
+    """C04 lane: /repo's own robsd-wait, built from robsd-wait.c, run on a process that is alive.  A functional robsd-wait
+    blocks until the process is gone; outside OpenBSD the program is a stub that returns at once."""
+    sleeper = subprocess.Popen(['sleep', '30'])
+    try:
+        t0 = time.time()
+        try:
+            r = subprocess.run([os.path.join(impl, 'robsd-wait'), '-a', str(sleeper.pid)], stdout=subprocess.PIPE, stderr=subprocess.PIPE, timeout=3)
+            return {'returned': True, 'rc': r.returncode, 'out': r.stdout.decode('latin1'), 'secs': time.time() - t0}
+        except subprocess.TimeoutExpired:
+            return {'returned': False}
+        except OSError as e:
+            return {'error': str(e)}
+    finally:
+        sleeper.kill()
+        sleeper.wait()
